@@ -85,7 +85,7 @@ def closure_of(mods):
             todo += re.findall(r'^import\s+(QuinnModel[\w\.]*)', open(path).read(), flags=re.M)
     return seen
 
-NO_TRACE = {'hostile'}      # scenarios that emit no model trace
+NO_TRACE = {'hostile', 'gate'}      # scenarios that emit no model trace
 
 def gen_closure(pid, cfg):
     """Gen/<Name>.lean files this property depends on: through its theorems (import closure of its Props
